@@ -142,7 +142,8 @@ namespace zoo {
       ZCASE { v.generative(); const ipr::Type& ty = w.t(); const ipr::Eclipsis& n = *lx.make_eclipsis(ty); v.template node<ipr::Eclipsis>(n); v.operands(true); v.typed(n, &ty); return; }
       ZCASE { const ipr::String& s = w.s(); const ipr::Literal& l = lx.get_literal(w.t(), w.s()); const ipr::Annotation& n = *w.own(new impl::Annotation(s, l));   /* expr_factory::make_annotation is declared but not defined by the library */
               v.template node<ipr::Annotation>(n); v.operands(same(n.name(), s) && same(n.value(), l) && same(n.first(), s) && same(n.second(), l)); return; }
-      ZCASE { const ipr::Type& ty = w.t(); const ipr::String& s = w.s(); const ipr::Literal& n = w.flag() ? *lx.make_literal(ty, s) : lx.get_literal(ty, s.characters());
+      ZCASE { const ipr::Type& ty = w.t(); const ipr::String& s = w.s(); unsigned form = w.pick(4);      /* all four request forms: make_ / get_, interned String / raw spelling */
+              const ipr::Literal& n = form == 0 ? *lx.make_literal(ty, s) : form == 1 ? *lx.make_literal(ty, s.characters()) : form == 2 ? lx.get_literal(ty, s) : lx.get_literal(ty, s.characters());
               v.template node<ipr::Literal>(n); v.operands(same(n.first(), ty) && same(n.second(), s) && same(n.string(), s)); v.typed(n, &ty); return; }
       ZCASE { v.generative(); const ipr::Expr& f = w.e(); impl::Expr_list* x = lx.make_expr_list(); x->push_back(&w.e()); const ipr::Type* et; auto ty = w.ot(et);
               const ipr::Call& n = *lx.make_call(f, *x, ty); v.template node<ipr::Call>(n); v.operands(same(n.function(), f) && same(n.args(), *x) && same(n.first(), f) && same(n.second(), *x)); v.typed(n, et); return; }
